@@ -170,7 +170,7 @@ theorem OwnInvA.membersNext :
     exact ⟨⟨ha, hj, hk⟩, key _ _ hj⟩
 
 theorem OwnInvA.base : Base E (OwnInvA a) (okOwn a) where
-  okDown := fun _ _ => Or.inr rfl
+  okDown0 := fun _ => Or.inr rfl
   membersApply := OwnInvA.membersApply a
   membersApplyExistingIf := OwnInvA.membersApplyExistingIf a
   membersNext := OwnInvA.membersNext a
@@ -192,7 +192,7 @@ theorem OwnInvA.base : Base E (OwnInvA a) (okOwn a) where
     · rw [h] at hm; exact hj m hm hma
     · exact hj m (hp.mem_iff.1 (List.mem_cons_of_mem _ hm)) hma)
   sendMessage := Pres.sendMessage E (by intro s s' h hs; exact OwnInvA.of_same a (by rw [h]) (by rw [h]) (Or.inl (by rw [h])) hs)
-  addUpdate := fun m => by
+  addUpdate := fun m _ => by
     unfold Foca.addUpdate
     exact Pres.modS_of (fun s hs => OwnInvA.of_same a (s := s) rfl rfl (Or.inl rfl) hs)
   modCtl := fun f h => Pres.modS_of (fun s hs =>
@@ -220,7 +220,7 @@ theorem OwnInvA.changeIdentity_same (newId : Id) (pol : Policy) (hadr : newId.ad
     · obtain ⟨_, hj, hk⟩ := hs
       exact ⟨hadr, hj, hk⟩
     · split
-      · exact Pres.bind (B.addUpdate _) (fun _ => B.gossip)
+      · exact Pres.bind (B.addUpdate _ (B.okDown0 _)) (fun _ => B.gossip)
       · exact B.gossip
 
 theorem OwnInvA.attemptRejoin : Pres (OwnInvA a) (Foca.attemptRejoin E) := by
@@ -247,14 +247,14 @@ theorem OwnInvA.handleSelfUpdate (inc : Nat) (st : St) : Pres (OwnInvA a) (Foca.
     | exact B.gossip
     | exact Pres.modS_of (fun s hs => OwnInvA.of_same a (s := s) rfl rfl (Or.inl rfl) hs)
 
-theorem OwnInvA.full : Full E (OwnInvA a) (okOwn a) where
+theorem OwnInvA.full : Full E (OwnInvA a) (okOwn a) (fun _ => True) (fun _ => True) where
   toBase := OwnInvA.base E a
   handleSelfUpdate := OwnInvA.handleSelfUpdate E a
-  senderOk := fun s0 h hp hsrc => by
+  senderOk := fun s0 h _ hp hsrc => by
     left
     simp only [Bool.or_eq_false_iff, beq_eq_false_iff_ne] at hsrc
     rw [← hp.1]; exact hsrc.2
-  applyOk := fun s0 u hp _ h2 => by
+  applyOk := fun s0 u _ hp _ h2 => by
     left
     simp only [beq_eq_false_iff_ne] at h2
     rw [← hp.1]; exact fun h => h2 h.symm
@@ -328,7 +328,7 @@ theorem changeIdentity_other (E : Env) (s0 : State) (i : Id) (p : Policy)
         simp [Probe.clear] at hm
       · refine Tr.weaken (Tr.of_pres ?_) (fun _ h => Or.inl h)
         split
-        · exact Pres.bind (B.addUpdate _) (fun _ => B.gossip)
+        · exact Pres.bind (B.addUpdate _ (B.okDown0 _)) (fun _ => B.gossip)
         · exact B.gossip
 
 theorem OwnInvA.reuseDownIdentity (a : Nat) : Pres (OwnInvA a) Foca.reuseDownIdentity := by
@@ -374,7 +374,9 @@ theorem OwnInv.step (E : Env) (s : State) (op : Op) (orc : Oracle) (h : OwnInv s
           | true => exact of_decide_eq_true hq
           | false => exact absurd ⟨i, p, hi, of_decide_eq_false hq⟩ hother
         exact OwnInvA.changeIdentity_same E s.id.addr i p this)
-      (fun _ => OwnInvA.reuseDownIdentity s.id.addr)).run ⟨s, [], orc⟩ h
+      (fun _ => OwnInvA.reuseDownIdentity s.id.addr)
+      (fun _ _ _ _ => Or.inr rfl) (fun _ _ _ _ _ => trivial)
+      (fun _ _ _ _ _ => ⟨trivial, fun _ _ _ _ _ => trivial⟩)).run ⟨s, [], orc⟩ h
     unfold Foca.step
     cases hr : Foca.runOp E op ⟨s, [], orc⟩ with
     | stuck x => trivial
